@@ -495,6 +495,17 @@ def model_unwrap(interp, p, fr, callee, argv, dcell, ret):
         p.pc.append(okc); fr.bb = ret; return [p]
     return interp.fork(p, [(z3.Not(okc), bad), (okc, good)])
 
+def model_unwrap_or(interp, p, fr, callee, argv, dcell, ret):
+    a, dflt = argv[0], argv[1]
+    if not isinstance(a, Adt) or a.name != 'Option': return None
+    idx = ENUMS['Option'].index('Some')
+    if isinstance(a.discr, int):
+        dcell.v = a.fields[('Some', 0)].v if a.discr == idx else dflt; fr.bb = ret; return [p]
+    tm = re.match(r'Option::<(.+)>::unwrap_or$', callee)
+    val = a.field('Some', 0, tm.group(1) if tm else '?', interp.ctx).v
+    if not (z3.is_bv(val) and z3.is_bv(dflt)): return None
+    dcell.v = z3.If(a.discr == z3.BitVecVal(idx, a.discr.size()), val, dflt); fr.bb = ret; return [p]
+
 def model_eq_enum(interp, p, fr, callee, argv, dcell, ret):
     a, b = argv[0].cell.v, argv[1].cell.v
     if isinstance(a, Lazy) or isinstance(b, Lazy): return None
@@ -575,6 +586,7 @@ def model_str_eq(interp, p, fr, callee, argv, dcell, ret):
 
 GENERIC = {
     r'(Option|Result)::<.*>::unwrap$': model_unwrap,
+    r'Option::<.*>::unwrap_or$': model_unwrap_or,
     r'as PartialEq>::(eq|ne)$': lambda *a: (model_str_eq(*a) if ('str' in a[3]) else model_eq_enum(*a)),
     r'as Try>::branch$': model_try_branch,
     r'as FromResidual<.*>>::from_residual$': model_from_residual,
